@@ -143,7 +143,7 @@ def run(tier):
             data[rng.randint(nb), rng.randint(rows), rng.randint(cols)] = nodata
         if dt == np.float32 and np.isfinite(nodata) and rng.rand() < 0.6:
             # a sample merely CLOSE to the nodata value is not no-data (multiples of 1/64: exact in float32 and at scale 1000... of 1/8)
-            data[rng.randint(nb), rng.randint(rows), rng.randint(cols)] = nodata + float(rng.choice([0.125, -0.125, 0.002 * 0 + 0.0625 * 0 + 0.25]))
+            data[rng.randint(nb), rng.randint(rows), rng.randint(cols)] = nodata + float(rng.choice([0.0625, -0.0625, 1.0 / 512]))
         descs = [f"b{i}" for i in range(nb)] if nb > 1 else None
         fimg = build.write_tif(tmp / f"i{k}.tif", data, dtype=dt, descriptions=descs)
         with_mask = k % 2 == 0
